@@ -133,6 +133,13 @@ CHECKS["C19"] = (
     "5.C19",
 )
 
+CHECKS["C20"] = (
+    "CrossHair-explored selectors over the modelled sources of nondeterminism: iteration order of every set created by set()/frozenset() calls in sigma.* (order-permuting set subclasses injected into the module namespaces), regex flag sets, and the draws of random.choices; a 12-item corpus is converted with the real code per (order, draw) and compared byte for byte with the baseline",
+    "PARTIAL: decides independence from the modelled set iteration orders (4 orders) and random draws (4 draw sequences) for queries AND error texts of a 12-item corpus, and that internal identifiers never surface. Real PYTHONHASHSEED randomisation / process starts, and sets built by displays or comprehensions, are outside the solver's reach; they are only covered by a 3-seed subprocess self-check and listed by an AST scan.",
+    TB,
+    "5.C20",
+)
+
 NOT_APPLICABLE = {}
 
 ALL = [f"C{n:02d}" for n in range(1, 21)]
